@@ -328,6 +328,43 @@ def lifecycle_hist_to_script(hist, src):
     return {"cfg": {"src": src, "auto_broker": False, "base_ms": 100, "max_ms": 1000, "jitter": "none", "connect_timeout_ms": 5000, "ka": 0}, "steps": steps}
 
 
+THREADED_LIFECYCLE_REGRESSIONS = [
+ {"cfg": {"src": "S3:lc-threaded-happy", "adapter": "plain", "settle_full": True}, "steps": [{"a": "Start"}, {"a": "WaitConnected"}, {"a": "Publish", "qos": 1, "size": 10}, {"a": "Sleep", "ms": 50}, {"a": "Stop", "disc": True}, {"a": "Settle", "ms": 800}]},
+ {"cfg": {"src": "S3:f02-threaded-stop-disc-then-connection-lost", "adapter": "plain", "settle_full": True}, "steps": [{"a": "Start"}, {"a": "WaitConnected"}, {"a": "WriteStall", "on": True}, {"a": "Stop", "disc": True}, {"a": "Sleep", "ms": 30}, {"a": "PeerClose"}, {"a": "Settle", "ms": 800}, {"a": "Start"}, {"a": "Settle", "ms": 600}]},
+ {"cfg": {"src": "S3:f03-threaded-stop-disc-during-handshake", "adapter": "plain", "auto_broker": False, "settle_full": True}, "steps": [{"a": "Start"}, {"a": "WaitWritten"}, {"a": "Stop", "disc": True}, {"a": "Sleep", "ms": 30}, {"a": "Send", "what": "connack_ok"}, {"a": "Settle", "ms": 1500}]},
+ {"cfg": {"src": "S3:f18-threaded-close-after-stop-disc", "adapter": "plain", "settle_full": True}, "steps": [{"a": "Start"}, {"a": "WaitConnected"}, {"a": "WriteStall", "on": True}, {"a": "Stop", "disc": True}, {"a": "Close"}, {"a": "Sleep", "ms": 50}, {"a": "WriteStall", "on": False}, {"a": "Settle", "ms": 1500}]},
+ {"cfg": {"src": "S3:lc-threaded-refused-then-stop", "adapter": "plain", "settle_full": True}, "steps": [{"a": "ConnectPlan", "mode": "refuse"}, {"a": "Start"}, {"a": "Sleep", "ms": 300}, {"a": "Stop"}, {"a": "Settle", "ms": 500}, {"a": "ConnectPlan", "mode": "ok"}, {"a": "Start"}, {"a": "Settle", "ms": 500}, {"a": "Close"}, {"a": "Settle", "ms": 500}]},
+]
+
+
+def lifecycle_hist_to_threaded_script(hist, src):
+    """Decision history of ClientLifecycle.tla -> script for thread_run (real threaded client, scripted non-blocking transport, real time)."""
+    outcomes = [d["a"] for d in hist if d["a"] in ("ConnectOk", "ConnectRefused")]
+    plan = lambda o: {"a": "ConnectPlan", "mode": "ok" if o == "ConnectOk" else "refuse"}
+    steps = [plan(outcomes[0])] if outcomes else []
+    k = 0
+    for d in hist:
+        a = d["a"]
+        if a == "Start": steps.append({"a": "Start"})
+        elif a == "Stop": steps.append({"a": "Stop", "disc": False})
+        elif a == "StopDisc": steps.append({"a": "Stop", "disc": True})
+        elif a == "Close": steps.append({"a": "Close"})
+        elif a == "Loop": steps.append({"a": "Sleep", "ms": 6})
+        elif a in ("ConnectOk", "ConnectRefused"):
+            steps.append({"a": "Sleep", "ms": 15})
+            k += 1
+            steps.append(plan(outcomes[k]) if k < len(outcomes) else {"a": "ConnectPlan", "mode": "ok"})
+        elif a == "Timer": steps.append({"a": "Sleep", "ms": 70})
+        elif a == "Timeout": steps.append({"a": "Sleep", "ms": 450})
+        elif a == "WriteAll": steps += [{"a": "WriteStall", "on": False}, {"a": "Sleep", "ms": 8}, {"a": "WriteStall", "on": True}]
+        elif a == "WriteError": steps += [{"a": "WriteError"}, {"a": "Sleep", "ms": 8}]
+        elif a == "Send": steps += [{"a": "Send", "what": d["what"]}, {"a": "Sleep", "ms": 8}]
+        elif a == "PeerClose": steps += [{"a": "PeerClose"}, {"a": "Sleep", "ms": 8}]
+        elif a == "ReadError": steps += [{"a": "ReadError"}, {"a": "Sleep", "ms": 8}]
+    steps += [{"a": "WriteStall", "on": False}, {"a": "AutoBroker", "on": True}, {"a": "Settle", "ms": 700}]
+    return {"cfg": {"src": src, "adapter": "plain", "auto_broker": False, "stall_new": True, "base_ms": 10, "max_ms": 40, "connect_timeout_ms": 300, "settle_full": True}, "steps": steps}
+
+
 def run_lifecycle_mc(workdir, tier):
     """ClientLifecycle.tla: the repaired behaviour must satisfy everything; each recorded defect, switched back on, must be found."""
     out = {"instances": [], "distinct": 0, "generated": 0, "scripts": []}
@@ -357,7 +394,9 @@ def run_lifecycle_mc(workdir, tier):
     if not exp["ok"]:
         sys.stdout.write(exp["text"][-3000:])
         raise ToolError("ClientLifecycle.tla export instance failed")
+    out["histories"] = []
     for _, h in tla_json_lines(exp["text"], "SCRIPT"):
+        out["histories"].append(h)
         out["scripts"].append(lifecycle_hist_to_script(h, "S1:lifecycle:%d" % len(out["scripts"])))
     out["instances"].append({"name": "script export (safety, view without history)", "distinct": exp.get("distinct", 0), "generated": exp.get("generated", 0), "wall_s": exp["wall_s"], "ok": True})
     return out
@@ -393,6 +432,15 @@ def check_lifecycle(pid, tier, seed):
     verdict, tlc = trace_check(trace, [pid], os.path.join(workdir, "tc"))
     breaches = list(verdict["errs"][pid])
     violations, seen = report(pid, breaches, trace, sp, known, workdir)
+    # the threaded client: the same state machine behind a different loop; real time, so fewer schedules
+    th_scripts = THREADED_LIFECYCLE_REGRESSIONS + [lifecycle_hist_to_threaded_script(h, "S1:lifecycle-threaded:%d" % i)
+                                                   for i, h in enumerate(sample_evenly(mc["histories"], 120 if tier == "quick" else 1200))]
+    th_trace, th_sp, th_stats = run_scripts("thread_run", th_scripts, workdir, "threaded")
+    th_verdict, _ = trace_check(th_trace, [pid], os.path.join(workdir, "tc-threaded"))
+    th_breaches = list(th_verdict["errs"][pid])
+    v2, seen2 = report(pid, th_breaches, th_trace, th_sp, known, workdir)
+    violations += v2; seen += seen2; breaches += th_breaches
+    stats["runs"] += th_stats["runs"]; stats["panics"] += th_stats["panics"]; verdict["events"] += th_verdict["events"]
     samples = [{"src": sc["cfg"]["src"], "steps": sc["steps"][:16]} for sc in (scripts[1], scripts[len(scripts) // 2], scripts[-1])]
     coverage = {"states": max(1, mc["distinct"]), "transitions": max(1, mc["generated"]), "traces_validated_against_impl": stats["runs"], "samples": samples,
                 "exhaustive": True, "model_checking": {"instances": mc["instances"], "scripts_exported": len(mc["scripts"]), "scripts_replayed": len(s1)},
@@ -402,7 +450,7 @@ def check_lifecycle(pid, tier, seed):
                                 "(regression scripts and %d schedules exported by TLC) were judged by the same monitor MonC12") % (mc["distinct"], stats["runs"], len(s1))}
     write_evidence(pid, tier, seed, coverage,
                    ["the tokio client on a current-thread runtime with a paused clock: 'bounded time' is virtual time after the scripted transport has reacted",
-                    "the threaded client shares MqttClientImpl and the loop structure; it is exercised by the C13 check",
+                    "the threaded client runs in real time: fewer schedules (40 quick / 400 thorough), sleeps between steps instead of yields",
                     "TLC as the judge of MonC12 and ClientLifecycle.tla"], time.time() - t0, violations, {"log": log})
     return 1 if violations else 0
 
@@ -410,8 +458,8 @@ def check_lifecycle(pid, tier, seed):
 # ------------------------------------------------------------------------------------------------
 # reconnect back-off (C19): Backoff.tla + the real tokio client on a paused clock
 
-STAB_REAL_US = 30000          # the stability period used in replays (real time: the client measures lifetimes with std Instant)
-LONG_LIFE_REAL_US = 45000
+STAB_REAL_US = 60000          # the stability period used in replays (real time: the client measures lifetimes with std Instant)
+LONG_LIFE_REAL_US = 100000
 
 def backoff_cfg(defects, export, maxhist, cfgset="Cfg_All"):
     lines = ["SPECIFICATION Spec", "CONSTANTS", "  CfgSet <- %s" % cfgset, "  Lifetimes <- Life_All", "  MaxHist = %d" % maxhist, "  DurMax = 1000000000",
@@ -422,7 +470,7 @@ def backoff_cfg(defects, export, maxhist, cfgset="Cfg_All"):
 
 def backoff_script(cfg, hist, src):
     """A behaviour of Backoff.tla (configuration + outcomes of the attempts) -> a script for the real tokio client."""
-    c = {"src": src, "auto_broker": False, "jitter": cfg["jitter"], "slack_us": 1000, "life_slack_us": 10000, "connect_timeout_ms": 100000000,
+    c = {"src": src, "auto_broker": False, "jitter": cfg["jitter"], "slack_us": 1000, "life_slack_us": 25000, "connect_timeout_ms": 100000000,
          "stable_us": 0 if cfg["stableUs"] == 0 else STAB_REAL_US}
     for name, key in (("base", "baseUs"), ("max", "maxUs")):
         v = cfg[key]
@@ -561,7 +609,7 @@ def check_backoff(pid, tier, seed):
                                 "and %d waits were compared with the waits the specification predicts (%d differ)") % (mc["distinct"], stats["runs"], compared, len(drift))}
     write_evidence(pid, tier, seed, coverage,
                    ["tokio timers have 1 ms granularity: a wait may be up to 1 ms longer than the period (slackUs)",
-                    "the client measures connection lifetimes with std::time::Instant (real time): replays use a 30 ms stability period, connections that end at once or after 45 ms, and a 10 ms tolerance",
+                    "the client measures connection lifetimes with std::time::Instant (real time): replays use a 60 ms stability period, connections that end at once or after 100 ms, and a 25 ms tolerance",
                     "the threaded client shares MqttClientImpl::advance_reconnect_period and the reset rule; only its sleeping differs and is not observed here",
                     "TLC as the judge of MonC19 and Backoff.tla"], time.time() - t0, violations, {"log": log})
     return 1 if violations else 0
